@@ -113,7 +113,7 @@ fn step_u(r: &mut Rec, rng: &mut Rng, maxdigits: usize) {
         s = (s + 1) % 4;
     }
     let len = r.g.u[d].verif_raw().len();
-    match rng.below(23) {
+    match rng.below(25) {
         0 | 1 => { r.u_assign("add", "assign_ref", d, s, |x, y| *x += y); }
         2 => { r.u_assign("sub", "assign_ref", d, s, |x, y| *x -= y); }
         3 => {
@@ -183,6 +183,23 @@ fn step_u(r: &mut Rec, rng: &mut Rng, maxdigits: usize) {
             let dg = digits_p(rng, n, &[Pat::Random, Pat::Ones, Pat::Pow2, Pat::LowZeros]);
             load_u(r, d, &dg);
         }
+        22 => {
+            // scalar forms, wide scalars included, on whatever the register holds (zero included)
+            let w128: u128 = *rng.pick(&[1u128 << 64, (1u128 << 64) + 1, u128::MAX, 3u128 << 100, 5, 0]);
+            let w64: u64 = *rng.pick(&[0u64, 1, u64::MAX, 1 << 63, 10]);
+            match rng.below(5) {
+                0 => { r.op("mul", "assign_u128", &[u(d)], &[u(d)], &ex_sc("U", &[w128.sc()], "rc"), |g| { g.u[d] *= w128; Ret::none() }); }
+                1 => { r.op("mul", "u128_val", &[u(d)], &[u(d)], &ex_sc("U", &[w128.sc()], "cr"), |g| { g.u[d] = w128 * g.u[d].clone(); Ret::none() }); }
+                2 => { r.op("add", "assign_u64", &[u(d)], &[u(d)], &ex_sc("U", &[w64.sc()], "rc"), |g| { g.u[d] += w64; Ret::none() }); }
+                3 => { r.op("mul", "assign_u64", &[u(d)], &[u(d)], &ex_sc("U", &[w64.sc()], "rc"), |g| { g.u[d] *= w64; Ret::none() }); }
+                _ => { r.op("add", "assign_u128", &[u(d)], &[u(d)], &ex_sc("U", &[w128.sc()], "rc"), |g| { g.u[d] += w128; Ret::none() }); }
+            }
+        }
+        23 => {
+            // checked division with whatever the other register holds as divisor (None exactly for zero)
+            r.x("\"part\":\"q\"".into()).uu_opt("checked_div", "method", d, s, 5, |a, b| num_traits::CheckedDiv::checked_div(a, b));
+            r.x("\"part\":\"q\"".into()).uu_opt("checked_div_euclid", "method", d, s, 5, |a, b| num_traits::CheckedEuclid::checked_div_euclid(a, b));
+        }
         21 => {
             // constructors fed with redundant leading zero digits (they write registers u2 / i2)
             let radix = *rng.pick(&[2u32, 8, 10, 16, 32, 36, 64, 128, 256, 3, 255]);
@@ -218,7 +235,7 @@ fn step_i(r: &mut Rec, rng: &mut Rng, maxdigits: usize) {
         s = (s + 1) % 4;
     }
     let len = r.g.i[d].magnitude().verif_raw().len();
-    match rng.below(22) {
+    match rng.below(26) {
         0 | 1 => { r.i_assign("add", "assign_ref", d, s, |x, y| *x += y); }
         2 | 3 => { r.i_assign("sub", "assign_ref", d, s, |x, y| *x -= y); }
         4 => { if len + r.g.i[s].magnitude().verif_raw().len() <= maxdigits { r.i_assign("mul", "assign_ref", d, s, |x, y| *x *= y); } }
@@ -282,6 +299,22 @@ fn step_i(r: &mut Rec, rng: &mut Rng, maxdigits: usize) {
             let dg = digits_p(rng, n, &[Pat::Random, Pat::Ones, Pat::Pow2, Pat::LowZeros]);
             let sg = *rng.pick(&[Sign::Minus, Sign::NoSign, Sign::Plus]);
             load_i(r, d, sg, &dg);
+        }
+        22 => {
+            let w128: u128 = *rng.pick(&[1u128 << 64, (1u128 << 64) + 1, u128::MAX, 5, 0]);
+            let wi128: i128 = *rng.pick(&[i128::MIN, -(1i128 << 64), 1i128 << 100, -1, 0]);
+            match rng.below(4) {
+                0 => { r.op("mul", "assign_u128", &[i(d)], &[i(d)], &ex_sc("I", &[w128.sc()], "rc"), |g| { g.i[d] *= w128; Ret::none() }); }
+                1 => { r.op("mul", "i128_val", &[i(d)], &[i(d)], &ex_sc("I", &[wi128.sc()], "cr"), |g| { g.i[d] = wi128 * g.i[d].clone(); Ret::none() }); }
+                2 => { r.op("add", "assign_i128", &[i(d)], &[i(d)], &ex_sc("I", &[wi128.sc()], "rc"), |g| { g.i[d] += wi128; Ret::none() }); }
+                _ => { r.op("sub", "assign_u128", &[i(d)], &[i(d)], &ex_sc("I", &[w128.sc()], "rc"), |g| { g.i[d] -= w128; Ret::none() }); }
+            }
+        }
+        23 | 24 => {
+            // the checked methods see whatever state the register is in (a mangled zero must still give None)
+            r.x("\"part\":\"q\"".into()).ii_opt("checked_div", "method", s, d, 5, |a, b| a.checked_div(b));
+            r.x("\"part\":\"q\"".into()).ii_opt("checked_div_euclid", "method", s, d, 5, |a, b| num_traits::CheckedEuclid::checked_div_euclid(a, b));
+            r.q_i("is_zero", "zero", "", d, |x| Ret::none().b(num_traits::Zero::is_zero(x)));
         }
         _ => { r.i1("neg", "val", "", s, d, |a| -a.clone()); }
     }
